@@ -477,6 +477,15 @@ pub fn check_c17(
                     }
                 }
             }
+            // (a dropped server shuts down just as gracefully: its waiters
+            // must not be released before the handlers that had started)
+            if sd.by_drop && (plan.server.mode == Mode::Detached || !departs) {
+                if let Some(t) = term {
+                    if t.2 == Ev::HandlerExit {
+                        required_done_seq = required_done_seq.max(t.0);
+                    }
+                }
+            }
             // rule 1: started handler + client that stays
             if departs {
                 continue;
